@@ -224,8 +224,13 @@ class Peeling_Tree():
             parent_qubits = self.H[parents, :].toarray().astype(bool)
             leaf_qubits = self.H[curr_leaves_ind, :].toarray().astype(bool)
             syndrome_leaves = curr_syndromes[curr_leaves_ind]
-            correction.extend(np.where((parent_qubits & leaf_qubits)[
-                              syndrome_leaves, :])[1].tolist())
+            # One qubit per parent-leaf edge: on a lattice of width 2 two
+            # qubits join the same pair of stabilizers and flipping both
+            # would cancel.
+            shared = (parent_qubits & leaf_qubits)[syndrome_leaves, :]
+            correction.extend(
+                shared.argmax(axis=1)[shared.any(axis=1)].tolist()
+            )
             self._update_syndrome(parents, curr_leaves_ind, curr_syndromes)
             child_to_p[curr_leaves_ind, :] = 0
             curr_leaves_ind = np.unique(np.array(parents)[np.where(
